@@ -37,6 +37,11 @@ def run(tier, rnd, out):
         try: o = SwitcherSchedule(sid, rnd.random() < .5, set(rnd.sample(list(Days), rnd.randrange(0, 3))), a, b)
         except Exception: o = None
         objs.append(o); oc_.append({"slot": sid, "start": a, "end": b})
+    import dataclasses
+    for k in range(0, len(objs) - 1, 5):          # every fifth schedule is derived from its predecessor with dataclasses.replace
+        if objs[k] is None: continue
+        try: objs[k + 1] = dataclasses.replace(objs[k], start_time=oc_[k + 1]["start"], end_time=oc_[k + 1]["end"]); oc_[k + 1]["slot"] = oc_[k]["slot"]
+        except Exception: pass
     def dur(o):
         try: return "ok " + o.duration
         except Exception: return "raised"
